@@ -412,7 +412,7 @@ def cases(tier):
     #  max_iter=100 does not; the claim is made for budgets that end on a function step)
     for mi in ([1, 2] if q else [1, 2, 4, 5]):
         add("case_fixed_point", f"fixed_point_it{mi}", max_iter=mi, aitken=True,
-            opts=dict(weight=4 ** mi, case_timeout_s=280 if q else 3000))
+            opts=dict(weight=4 ** mi, case_timeout_s=900 if q else 3000))
     add("case_fixed_point", "fixed_point_it3_noaitken", max_iter=3, aitken=False, opts=dict(weight=50))
     add("case_fixed_point", "fixed_point_it2_with_nan", max_iter=2, aitken=True, with_nan=True, opts=dict(weight=50))
     add("case_fixed_point", "fixed_point_it3_noaitken_with_nan", max_iter=3, aitken=False, with_nan=True, opts=dict(weight=60))
@@ -422,6 +422,6 @@ def cases(tier):
     add("case_roughness_point", "roughness_raises", scenario="raises")
     for mi in ([2, 3] if q else [2, 3, 4]):
         if mi == 2:
-            add("case_newton_aitken", "newton_aitken_it3", opts=dict(weight=200, case_timeout_s=280))
-        add("case_newton_hybrid", f"newton_hybrid_it{mi}", max_iterations=mi, opts=dict(weight=5 ** mi, case_timeout_s=280))
+            add("case_newton_aitken", "newton_aitken_it3", opts=dict(weight=200, case_timeout_s=900))
+        add("case_newton_hybrid", f"newton_hybrid_it{mi}", max_iterations=mi, opts=dict(weight=5 ** mi, case_timeout_s=900))
     return cs
